@@ -751,8 +751,8 @@ struct DocRef {
     doc: Document,
     lints: Vec<Lint>,
     keys: Vec<u64>,
-    /// (i, span): Document::get_token_at_char_index(i) is a Url token with that span (the function tabulated)
-    urls: Vec<(usize, Span)>,
+    /// the token vector as the parser left it: (start, end, kind == Url) - what Model/C08TokenAt.v searches
+    toks: Vec<(usize, usize, bool)>,
 }
 
 #[derive(Clone, Debug)]
@@ -780,6 +780,108 @@ fn ctx_key(l: &Lint, doc: &Document) -> u64 {
     v["context_hashes"][0].as_u64().unwrap_or(0) >> 2
 }
 
+fn tok_vec(doc: &Document) -> Vec<(usize, usize, bool)> {
+    doc.get_tokens().iter().map(|t| (t.span.start, t.span.end, matches!(t.kind, TokenKind::Url))).collect()
+}
+
+fn fmt_toks(toks: &[(usize, usize, bool)]) -> String {
+    toks.iter().map(|(a, b, u)| format!("{a} {b} {}", *u as u8)).collect::<Vec<_>>().join(" ")
+}
+
+/// Model/C08TokenAt.v: toks_sorted (every token non-empty, each ends where or before the next starts)
+fn toks_sorted(toks: &[(usize, usize, bool)]) -> bool {
+    toks.iter().all(|(a, b, _)| a < b) && toks.windows(2).all(|w| w[0].1 <= w[1].0)
+}
+
+/// PHASE 4 - Document::get_token_at_char_index inside the model.  Correspondence `K i | tokens`: the real
+/// function at every index of the document (long documents: every token boundary and a stride) against the
+/// extracted binary search over the same token vector.  Monitors: the premise of
+/// C08_history_code_action_at_published_tokens (every token inside the text: oracle failure
+/// `hyp_token_in_text`) and, as a cross-check of C08_token_at_sorted_is_scan on the implementation, that on
+/// sorted vectors the lookup is the linear scan (`token_lookup_sorted`).  Unsorted vectors (Markdown) are
+/// counted by front-end; a Url token the lookup misses there is the observation behind
+/// C08_token_at_unsorted_refuted (not C08's property: no oracle failure).
+fn check_token_lookup(rep: &mut Report, fe: &str, text: &str, doc: &Document) {
+    let n = text.chars().count();
+    let toks = tok_vec(doc);
+    let line = fmt_toks(&toks);
+    let inp = json!({"kind": "tokens", "frontend": fe, "text": text});
+    let mut idx: Vec<usize> = if n <= 400 { (0..=n + 1).collect() } else { (0..=n + 1).step_by(7).collect() };
+    if n > 400 {
+        for (a, b, _) in &toks {
+            idx.extend([*a, b.saturating_sub(1), *b]);
+        }
+        idx.sort();
+        idx.dedup();
+    }
+    let sorted = toks_sorted(&toks);
+    rep.count(if sorted { "tokens:vector sorted, tokens non-empty".to_string() } else { format!("tokens:vector NOT sorted ({})", fe.split('+').next().unwrap_or(fe)) }.as_str());
+    let outside = toks.iter().filter(|(a, b, _)| !(a <= b && *b <= n)).count();
+    if outside > 0 {
+        fail(rep, "hyp_token_in_text", format!("{outside} token(s) of the document do not lie inside its text of {n} characters: {:?}", toks.iter().find(|(a, b, _)| !(a <= b && *b <= n))), inp.clone());
+    }
+    rep.monitor("checked:every token of the document lies inside its text", toks.len() as u64);
+    let mut scan_checked = 0u64;
+    for i in idx {
+        let got = guarded(|| doc.get_token_at_char_index(i).map(|t| (t.span.start, t.span.end, matches!(t.kind, TokenKind::Url))));
+        let impl_line = match &got {
+            Err(_) => "P".to_string(),
+            Ok(None) => "N".to_string(),
+            Ok(Some((a, b, u))) => format!("{a} {b} {}", *u as u8),
+        };
+        rep.case(&format!("K {i} | {line}"), &impl_line);
+        if sorted {
+            let scan = toks.iter().find(|(a, b, _)| *a < i + 1 && i < *b).copied();
+            scan_checked += 1;
+            if got.as_ref().ok() != Some(&scan) {
+                fail(rep, "token_lookup_sorted", format!("sorted token vector, index {i}: get_token_at_char_index answers {got:?}, the linear scan {scan:?}"), inp.clone());
+            }
+        }
+    }
+    rep.monitor("checked:get_token_at_char_index = linear scan on sorted token vectors", scan_checked);
+}
+
+/// `B i | tokens`: core::slice::binary_search_by itself (the algorithm Model/C08TokenAt.v transcribes) under the
+/// lookup's comparator on ARBITRARY vectors - unsorted, overlapping, empty and reversed spans -, answer with
+/// its index: "O k" / "E k"
+fn check_binary_search(rep: &mut Report, r: &mut Rng, count: usize) {
+    for _ in 0..count {
+        let len = r.below(14);
+        let sorted_start = r.chance(1, 3);
+        let mut cur = 0usize;
+        let toks: Vec<(usize, usize, bool)> = (0..len)
+            .map(|_| {
+                if sorted_start {
+                    let a = cur + r.below(2);
+                    let b = a + r.below(4);
+                    cur = b;
+                    (a, b, r.chance(1, 4))
+                } else {
+                    let a = r.below(16);
+                    let b = if r.chance(1, 8) { a.saturating_sub(r.below(3)) } else { a + r.below(5) };
+                    (a, b, r.chance(1, 4))
+                }
+            })
+            .collect();
+        let line = fmt_toks(&toks);
+        for i in 0..=18usize {
+            let res = toks.binary_search_by(|t| {
+                if t.0 < i + 1 && i < t.1 {
+                    std::cmp::Ordering::Equal
+                } else {
+                    t.0.cmp(&i)
+                }
+            });
+            let impl_line = match res {
+                Ok(k) => format!("O {k}"),
+                Err(k) => format!("E {k}"),
+            };
+            rep.case(&format!("B {i} | {line}"), &impl_line);
+        }
+        rep.count(if toks_sorted(&toks) { "bsearch:vector sorted" } else { "bsearch:vector unsorted" });
+    }
+}
+
 fn doc_ref(fe: &str, text: &str, dict: &Arc<FstDictionary>) -> Option<DocRef> {
     guarded(|| {
         let doc = frontends::make_document(fe, text, dict);
@@ -788,14 +890,15 @@ fn doc_ref(fe: &str, text: &str, dict: &Arc<FstDictionary>) -> Option<DocRef> {
         let lints = lints_like_state(&mut fresh);
         let keys = lints.iter().map(|l| ctx_key(l, &doc)).collect();
         let n = text.chars().count();
-        let urls: Vec<(usize, Span)> = (0..=n).filter_map(|i| doc.get_token_at_char_index(i).filter(|t| matches!(t.kind, TokenKind::Url)).map(|t| (i, t.span))).collect();
+        let _ = n;
+        let toks = tok_vec(&doc);
         // how often the binary search of get_token_at_char_index misses a Url token that is there
         for t in doc.get_tokens().iter().filter(|t| matches!(t.kind, TokenKind::Url)) {
-            if t.span.start < t.span.end && !urls.iter().any(|(i, _)| *i == t.span.start) {
+            if t.span.start < t.span.end && !doc.get_token_at_char_index(t.span.start).is_some_and(|f| f.span == t.span && matches!(f.kind, TokenKind::Url)) {
                 URL_MISSED.with(|c| c.set(c.get() + 1));
             }
         }
-        DocRef { text: text.to_string(), doc, lints, keys, urls }
+        DocRef { text: text.to_string(), doc, lints, keys, toks }
     })
     .ok()
 }
@@ -829,8 +932,7 @@ fn history_case_line(refs: &[DocRef], ops: &[HOp], tags: &[String]) -> String {
                     x
                 })
                 .collect();
-            let urls: Vec<String> = d.urls.iter().map(|(i, u)| format!("{i} {} {}", u.start, u.end)).collect();
-            format!("{} , {} , {} , {}", k + 1, cps(&chars(&d.text)), lints.join(" / "), urls.join(" "))
+            format!("{} , {} , {} , {}", k + 1, cps(&chars(&d.text)), lints.join(" / "), fmt_toks(&d.toks))
         })
         .collect();
     let mut foreign: Vec<String> = vec![];
@@ -1186,6 +1288,7 @@ fn corr_history(rep: &mut Report, cx: &Ctx, r: &mut Rng, fe: &str, rpc_lang: Opt
             rep.count("hcorr:front-end or lint panicked(C01's business)");
             return;
         };
+        check_token_lookup(rep, fe, t, &d.doc);
         refs.push(d);
     }
     let mut tags: Vec<String> = vec![];
@@ -1251,8 +1354,9 @@ fn corr_history(rep: &mut Report, cx: &Ctx, r: &mut Rng, fe: &str, rpc_lang: Opt
                     let p = pos(r.below(nl + 2), r.below(12));
                     reqs.push(Range { start: p, end: p });
                 }
-                let mut url_starts: Vec<usize> = d.doc.get_tokens().iter().filter(|t| matches!(t.kind, TokenKind::Url)).map(|t| t.span.start).collect();
-                url_starts.truncate(2);
+                // at, just before, at the last character of and just behind the first Url tokens
+                let mut url_starts: Vec<usize> = d.doc.get_tokens().iter().filter(|t| matches!(t.kind, TokenKind::Url)).take(2).flat_map(|t| [t.span.start, t.span.start.saturating_sub(1), t.span.end.saturating_sub(1), t.span.end]).collect();
+                url_starts.dedup();
                 for u in url_starts {
                     if u <= t.len() && !inside_crlf(&t, u) {
                         let p = rc.position_of_char(u);
@@ -1367,6 +1471,15 @@ fn replay_input(rep: &mut Report, cx: &mut Ctx, r: &mut Rng, v: &Value) {
             corr_history(rep, cx, r, v["frontend"].as_str().unwrap_or("plain"), None, &texts, &whens, &scratch, None);
         }
         Some("casts") => check_casts(rep, r, 4),
+        Some("tokens") => {
+            let fe = v["frontend"].as_str().unwrap_or("plain");
+            let text = v["text"].as_str().unwrap_or("");
+            match guarded(|| frontends::make_document(fe, text, &cx.dict)) {
+                Ok(doc) => check_token_lookup(rep, fe, text, &doc),
+                Err(_) => rep.count("tokens:front-end panicked(C01's business)"),
+            }
+            check_binary_search(rep, r, 4);
+        }
         Some("hcorr") => {
             let strs = |x: &Value| -> Vec<String> { x.as_array().cloned().unwrap_or_default().iter().map(|s| s.as_str().unwrap_or("").to_string()).collect() };
             let scratch = format!("/tmp/w-c08-{}", std::process::id());
@@ -1555,7 +1668,28 @@ pub fn run(a: &Args, corpus: &[Value]) {
         corr_history(&mut rep, &cx, &mut r, fe, Some(lang), &texts, &[], &scratch, None);
     }
     check_casts(&mut rep, &mut r, a.scale(200, 20000));
-    rep.count_n("hcorr:Url token not found by get_token_at_char_index at its own start(not C08's property; tabulated, not modelled)", URL_MISSED.with(|c| c.get()));
+    // PHASE 4: get_token_at_char_index at every index of documents of every front-end (urls added: in a
+    // paragraph of its own, behind a paragraph break, at the very start), and binary_search_by itself
+    for fe in &fes {
+        for i in 0..a.scale(2, 25) {
+            let base = frontends::embed(fe, &mut r);
+            let text = match i % 4 {
+                0 => format!("{base}\n\nSee https://example.com/x?y=1 now.\n\nteh end"),
+                1 => format!("https://c.ex/{i}\n\n{base}"),
+                2 => format!("{base} at http://a.example/😀 and\r\n\r\nhttps://b.example."),
+                _ => base,
+            };
+            if text.chars().count() > 600 {
+                continue;
+            }
+            match guarded(|| frontends::make_document(fe, &text, &cx.dict)) {
+                Ok(doc) => check_token_lookup(&mut rep, fe, &text, &doc),
+                Err(_) => rep.count("tokens:front-end panicked(C01's business)"),
+            }
+        }
+    }
+    check_binary_search(&mut rep, &mut r, a.scale(300, 20000));
+    rep.count_n("hcorr:Url token not found by get_token_at_char_index at its own start(not C08's property: C08_token_at_unsorted_refuted, C08_url_lookup_only_appends)", URL_MISSED.with(|c| c.get()));
     rep.finish();
 }
 
